@@ -7,7 +7,9 @@
                    3 C07 monitor fails on the implementation's own trace
                    31 as 3, refund whose sum exceeds int64 (known-finding class)
    run_rf codes:   5 answer differs from the model (correspondence)
-                   6 C08 monitor fails on the implementation's own answers *)
+                   6 C08 monitor fails on the implementation's own answers
+   run_ucost:      8 ChfUe.UnitCost differs from the model's unit cost (correspondence)
+                   9 C08 monitor: CHF-side unit cost <> cost applied by the server *)
 From Coq Require Import List ZArith Bool.
 From Verif Require Import Charging.Servers.
 Import ListNotations.
@@ -162,3 +164,15 @@ Definition check_rf (c : rf_case) : list (Z * Z * Z) :=
   (if c08_step (rc_db c) (rc_req c) (rc_obs c) then [] else [(rc_id c, 0, 6)]).
 
 Definition run_rf (cs : list rf_case) : list (Z * Z * Z) := flat_map check_rf cs.
+
+(* ---- the CHF side of the tariff (getUnitCost), observed as ChfUe.UnitCost ---- *)
+Record ucase := mkUcase { uc_id : Z; uc_cost : list Z; uc_chf : Z; uc_server : Z }.
+  (* uc_chf: unit cost stored by the CHF after an update; uc_server: price the
+     server charges for one consumed unit (-1: not observed) *)
+
+Definition check_ucost (c : ucase) : list (Z * Z * Z) :=
+  let '(dg, ex) := tariff (uc_cost c) in
+  (if uc_chf c =? unit_cost dg ex then [] else [(uc_id c, 0, 8)]) ++
+  (if (uc_server c =? -1) || (uc_chf c =? -1) || (uc_chf c =? uc_server c) then [] else [(uc_id c, 0, 9)]).
+
+Definition run_ucost (cs : list ucase) : list (Z * Z * Z) := flat_map check_ucost cs.
